@@ -135,7 +135,7 @@ pub fn effects_line(events: &[Event]) -> String {
             Event::SetLen(f, n) => parts.push(format!("SL:{}:{}", f, n)),
             Event::EnsureLen(f, n) => parts.push(format!("EL:{}:{}", f, n)),
             Event::Unlink(f) => parts.push(format!("UL:{}", f)),
-            Event::OpenFile(_) | Event::ListDir | Event::ReadBlock(_) | Event::Seek(_, _) | Event::GcRecordPosition(_) => {}
+            Event::OpenFile(_) | Event::ListDir | Event::ReadBlock(_) | Event::Seek(_, _) | Event::GcRecordPosition(_) | Event::SyncedContent { .. } | Event::SyncedDir(_) => {}
         }
     }
     if parts.is_empty() {
@@ -329,6 +329,7 @@ impl Real {
         let (tx, rx) = std::sync::mpsc::channel();
         let handle = std::thread::spawn(move || {
             hooks::set_enabled(true);
+            hooks::set_probe_dir(Some(dir.clone()));
             hooks::set_fault_plan(fault);
             // the default `open` is `open_with_prefs(Always(Flush))`: use it when that is the policy
             let res = catch_unwind(AssertUnwindSafe(|| {
@@ -382,6 +383,7 @@ impl Real {
 
     pub fn exec(&mut self, op: &Op) -> Exec {
         hooks::set_enabled(true);
+        hooks::set_probe_dir(Some(self.dir.clone()));
         hooks::take_events();
         let mut annot = op.line();
         let mut out = Vec::new();
